@@ -121,15 +121,16 @@ Definition select (c : config) (alpn : list (list N)) (sni : list N) : option me
                     m_proto := match max_proto parsed with Some p => p | None => H1 end;
                     m_host := i; m_creds := None |}
           | None =>
-            match match split_dot sni with
-                  | Some (a, b) => match index_of b (main_names c) 0 with
-                                   | Some i => Some (i, a) | None => None end
-                  | None => None
-                  end with
-            | Some (i, a) => tun i (Some a)
+            (* a configured alternative SNI comes before the <credentials>.<main host> pattern *)
+            match alt_lookup sni (c_main c) 0 with
+            | Some i => tun i None
             | None =>
-              match alt_lookup sni (c_main c) 0 with
-              | Some i => tun i None
+              match match split_dot sni with
+                    | Some (a, b) => match index_of b (main_names c) 0 with
+                                     | Some i => Some (i, a) | None => None end
+                    | None => None
+                    end with
+              | Some (i, a) => tun i (Some a)
               | None => None
               end
             end
